@@ -284,6 +284,25 @@ func keyCases(g *rig) {
 						bad("mismatch", fmt.Sprintf("re-parsed event %q (%+v) does not match the original chord", keys[0].String(), keys[0]))
 						continue
 					}
+					// the same key held down (auto-repeat) or arriving inside a bracketed paste is the same key for
+					// the child: the legacy encoding has no other way to say it
+					if mi == 0 || mi == 4 {
+						okTypes := true
+						for _, et := range []vaxis.EventType{vaxis.EventRepeat, vaxis.EventPaste} {
+							k2 := key
+							k2.EventType = et
+							g.m.Update(k2)
+							r.Count("key_cases", 1)
+							if b2 := g.written(); b2 != b {
+								bad("event-type", fmt.Sprintf("as an event of type %d (2 repeat, 4 paste) the key is written as %q, as a press as %q", et, b2, b))
+								okTypes = false
+								break
+							}
+						}
+						if !okTypes {
+							continue
+						}
+					}
 					r.Distinct(explore.Hash("key", mname, what))
 				}
 			}
@@ -494,7 +513,7 @@ func main() {
 	n := r.Get("key_cases") + r.Get("paste_cases") + r.Get("mouse_cases")
 	r.Finish(explore.Coverage{
 		States: -1, Transitions: n, Traces: n, Evaluations: n,
-		Rule:       "keys {a-z, 0-9, 11 punctuation, 8 non-ASCII letters, arrows, Home, End, Ins, Del, PgUp, PgDn, F1-F12, Enter, Tab, Esc, Backspace, Space} x every subset of Shift/Alt/Ctrl that the xterm legacy encoding expresses unambiguously x decckm x deckpam (each set directly, or both set and the unwanted one reset again); paste start/end x bracketed-paste mode (off, on, on and off again, on with a forwarded paste and then off); mouse buttons {left, middle, right, none, wheel up/down, 8-11} x press/release/motion x 3x3 positions x all 2^6 combinations of modes 1000/1002/1003/1006, alt-scroll and alternate screen, each reached in three ways (set only; all four set in either order and the others reset again); bytes written to the pipe standing in for the PTY are re-parsed by a real Vaxis on a fake console; distinct = cases that passed",
+		Rule:       "keys {a-z, 0-9, 11 punctuation, 8 non-ASCII letters, arrows, Home, End, Ins, Del, PgUp, PgDn, F1-F12, Enter, Tab, Esc, Backspace, Space} x every subset of Shift/Alt/Ctrl that the xterm legacy encoding expresses unambiguously x decckm x deckpam, unmodified and Ctrl chords also as auto-repeat and paste-tagged events (each mode set directly, or both set and the unwanted one reset again); paste start/end x bracketed-paste mode (off, on, on and off again, on with a forwarded paste and then off); mouse buttons {left, middle, right, none, wheel up/down, 8-11} x press/release/motion x 3x3 positions x all 2^6 combinations of modes 1000/1002/1003/1006, alt-scroll and alternate screen, each reached in three ways (set only; all four set in either order and the others reset again); bytes written to the pipe standing in for the PTY are re-parsed by a real Vaxis on a fake console; distinct = cases that passed",
 		Exhaustive: true,
 		Assumptions: []string{"chords the legacy encoding cannot express (Ctrl+Shift+letter, Alt+Shift+letter, Alt+Ctrl+letter, Ctrl+h/i/j/m, modified Enter/Tab/Esc/Backspace/Space other than Shift+Tab, Shift/Ctrl+digit or punctuation) are outside the table",
 			"wheel to arrow-key translation under alt-scroll in the alternate screen is the widget's documented feature, not a mouse report",
